@@ -203,7 +203,7 @@ def _chunks(l, n):
     return [l[i:i + k] for i in range(0, len(l), k)]
 
 
-def run_model(exe, jobs, timeout=1800, par=NPROC):
+def run_model(exe, jobs, timeout=5400, par=NPROC):
     """jobs: list of python structures; returns list of parsed results
     ('!...' strings for driver-level failures)"""
     if not jobs:
@@ -255,7 +255,7 @@ def impl_env(hashseed='0'):
     return env
 
 
-def run_impl(fn, cases, timeout=1800, par=NPROC, hashseed='0', cwd=None):
+def run_impl(fn, cases, timeout=5400, par=NPROC, hashseed='0', cwd=None):
     """run tools/implfns function `fn` on every case in worker subprocesses.
     Returns list of results (python structures); a worker crash/timeout gives
     {'harness': 'worker-died'} for the unanswered cases."""
@@ -280,7 +280,10 @@ def run_impl(fn, cases, timeout=1800, par=NPROC, hashseed='0', cwd=None):
         res = []
         for l in (o or '').split('\n'):
             if l.startswith('R '):
-                res.append(json.loads(l[2:]))
+                try:
+                    res.append(json.loads(l[2:]))
+                except ValueError:
+                    break       # a line truncated by a killed worker
         if len(res) < len(ch):
             tail = (e or '')[-2000:]
             res += [{'harness': 'worker-died', 'stderr': tail}] * (len(ch) - len(res))
